@@ -276,3 +276,89 @@ package deprecatedstate
 //@   assigns itValid, itPast, itAt, itPrefixLen, itPrefix
 //@   ensures latest: result1 == nil && (exists j uint64 :: histAt(j)) ==> histAt(result0) && (forall j uint64 :: histAt(j) ==> j <= result0)
 //@   ensures none: result1 == nil && (forall j uint64 :: !histAt(j)) ==> result0 == 0
+
+// ---- a contract's deployment height is the block that created it (C03) ------------------------------
+// "Did this contract exist at block n" is answered from the recorded deployment height. Every way a
+// block creates a contract - a deployment in its diff, or the first storage write to a system
+// contract (0x1, 0x2) - records THIS block's number, so the contract is not found at earlier blocks.
+//@ ghost var registered set[felt.Felt]
+//@ func DeployContract
+//@   trusted
+//@ func (*State).updateContractCommitment
+//@   trusted
+//@ extern func github.com/NethermindEth/juno/core.WriteContractDeploymentHeight
+//@   logged as WriteDeploymentHeight
+//@   sets registered = setadd(registered, *addr)
+//@ func (*State).putNewContract
+//@   props C03
+//@   arith int
+//@   nosafe
+//@   logged
+//@   requires s != nil
+//@   assigns registered, calls_WriteDeploymentHeight, arg_WriteDeploymentHeight_w, arg_WriteDeploymentHeight_addr, arg_WriteDeploymentHeight_height
+//@   callsite WriteContractDeploymentHeight@*: of_this_contract_at_this_block: $1 == addr && $2 == blockNumber
+//@   ensures height_recorded: result == nil ==> calls_WriteDeploymentHeight == old(calls_WriteDeploymentHeight) + 1
+//@   ensures registered_now: (result == nil ==> setin(registered, old(*addr))) && (forall a felt.Felt :: old(setin(registered, a)) ==> setin(registered, a))
+//@ extern func github.com/NethermindEth/juno/core/state.IsSystemContract
+//@ func NewContractUpdater
+//@   trusted
+//@ func (*State).updateStorageBuffered
+//@   trusted
+//@   modifies *
+//@ extern func github.com/sourcegraph/conc/pool.NewWithResults
+//@ extern func slices.SortedStableFunc
+//@ extern func maps.Keys
+//@ extern func sort.Slice
+//@   modifies *
+//@ extern func github.com/NethermindEth/juno/db.(*BufferBatch).Flush
+//@   modifies *
+//@ func (*State).updateContractStorages
+//@   props C03
+//@   arith int
+//@   nosafe
+//@   requires s != nil
+//@   modifies *
+//@   assigns calls_putNewContract, arg_putNewContract_stateTrie, arg_putNewContract_addr, arg_putNewContract_classHash, arg_putNewContract_blockNumber
+//@   callsite putNewContract@*: system_contract_created_by_this_block: $4 == blockNumber
+
+// (The trusted helpers below write the database and the tries, which these contracts do not model;
+// they are assumed not to write the header, the update or the diff they are handed.)
+// ---- applying a block's state update (legacy back-end): roots checked around it, every deployment
+// registered at this block (C02, C03) ------------------------------------------------------------------
+// The declared old root is compared with the state's root BEFORE anything is applied; unless the
+// caller opts out, the declared new root is compared after everything was applied; every contract
+// the diff deploys is registered with this block's number as its deployment height.
+//@ func (*State).verifyStateUpdateRoot
+//@   trusted
+//@   logged as VerifyRoot
+//@ func (*State).putClass
+//@   trusted
+//@ func (*State).updateDeclaredClassesTrie
+//@   trusted
+// (the closer returned by storage() commits the trie; it is assumed not to call back into the
+// functions this contract counts)
+//@ func (*State).storage
+//@   trusted
+//@   ensures effectfree(result1)
+//@ func (*State).updateContracts
+//@   trusted
+//@   logged as applyDiff
+//@ func (*State).Update
+//@   props C02 C03
+//@   arith int
+//@   nosafe
+//@   ownpackage
+//@   requires s != nil && header != nil && update != nil && update.StateDiff != nil
+//@   modifies *
+//@   assigns registered, calls_VerifyRoot, arg_VerifyRoot_root, arg_VerifyRoot_protocolVersion, calls_applyDiff, arg_applyDiff_stateTrie, arg_applyDiff_blockNumber, arg_applyDiff_diff, arg_applyDiff_logChanges, calls_putNewContract, arg_putNewContract_stateTrie, arg_putNewContract_addr, arg_putNewContract_classHash, arg_putNewContract_blockNumber
+//@   callsite verifyStateUpdateRoot@1: old_root_before_anything_is_applied: $1 == old(update.OldRoot) && $2 == old(header.ProtocolVersion) && calls_applyDiff == old(calls_applyDiff) && calls_putNewContract == old(calls_putNewContract)
+//@   callsite verifyStateUpdateRoot@2: new_root_after_everything_was_applied: $1 == update.NewRoot && $2 == old(header.ProtocolVersion) && calls_applyDiff == old(calls_applyDiff) + 1
+//@   callsite putNewContract@*: deployed_at_this_block: $4 == old(header.Number) && $3 == classHash
+//@   callsite updateContracts@*: this_blocks_diff_logged: $2 == old(header.Number) && $3 == update.StateDiff && $4
+//@   loop 1: invariant nothing_applied_yet: calls_applyDiff == old(calls_applyDiff) && calls_VerifyRoot == old(calls_VerifyRoot) + 1 && calls_putNewContract == old(calls_putNewContract) && registered == old(registered)
+//@   loop 2: invariant registered_so_far: forall a felt.Felt :: visited(a) ==> setin(registered, a)
+//@   loop 2: invariant not_yet_applied: calls_applyDiff == old(calls_applyDiff) && calls_VerifyRoot == old(calls_VerifyRoot) + 1
+//@   ensures old_root_always_checked: calls_VerifyRoot >= old(calls_VerifyRoot) + 1
+//@   ensures new_root_checked_unless_opted_out: result == nil && !skipVerifyNewRoot ==> calls_VerifyRoot == old(calls_VerifyRoot) + 2
+//@   ensures diff_applied_once: result == nil ==> calls_applyDiff == old(calls_applyDiff) + 1
+//@   ensures every_deployment_registered: result == nil ==> (forall a felt.Felt :: in(update.StateDiff.DeployedContracts, a) ==> setin(registered, a))
